@@ -7,7 +7,7 @@ import networkx as nx
 from symx import AND, OR, NOT, EQ
 from vf.graphs import all_shapes, relabel
 from harness.reactor_common import (ALPHABET, sym_reaction, sym_substrate, balance_assumption, its_iso, its_equal_sets,  # noqa
-                                    its_subset, reactor, check_sets_equal, check_subset)
+                                    its_subset, reactor, check_sets_equal, check_subset, family_reaction, plain_substrate)
 
 PROPERTY = "C05"
 
@@ -17,7 +17,7 @@ META = dict(
               "0..2) and on k=3 atoms (carbon only, no hydrogens, charge 0, orders per side 0..1, substrate rewritten by one fixed rotation) ; substrates: all shapes on <=3 atoms with symbolic labels; every renumbering of the "
               "template (solver-chosen permutation), a solver-chosen renumbering and reversed insertion order of the "
               "substrate, the same call repeated, strategies all/comp/bt on the same pair, and pruned results against "
-              "gluing every raw match",
+              "gluing every raw match; concrete families with a symmetric centre and symbolic substituents ([2+2], allylic shift; thorough: Diels-Alder)",
         thorough="k=3 templates with charges, substrates with 4 atoms (<=3 bonds)",
     ),
     outside=["SMILES rewriting proper (RDKit atom ordering, ring-closure digits): represented by node renumbering and "
@@ -130,7 +130,34 @@ def h_history(E, k, hn, hedges, invert):
     E.observe((len(first), len(second)))
 
 
-HARNESSES = {"numbering": h_numbering, "history": h_history}
+def h_family(E, family, invert):
+    """concrete reaction families with a symmetric centre (>= 3-6 atoms with identical labels) and symbolic substituents:
+    pruning loses nothing, and every renumbering of the centre template gives the same reactions."""
+    from synkit.Graph.ITS.its_construction import ITSConstruction
+    from synkit.Graph.ITS.its_decompose import get_rc
+
+    G, H = family_reaction(E, family)
+    rc = get_rc(ITSConstruction.ITSGraph(G, H))
+    sub = plain_substrate(H if invert else G)
+    info = dict(family=family, invert=invert)
+    R = reactor(sub, rc, "all", invert)
+    pruned, unpruned = R.its_list, glue_all_raw(R)
+    check_sets_equal(E, pruned, unpruned, "symmetry-pruning-changes-the-set-of-distinct-reactions",
+                     dict(info, n_pruned=len(pruned), n_raw=len(unpruned)))
+    tn = list(rc.nodes)
+    sigma = [int(x) for x in E.perm("sigma", len(tn))] if len(tn) <= 4 else [(i * 5 + 2) % len(tn) for i in range(len(tn))]
+    base = sorted(tn)
+    rc2 = relabel(rc, {v: base[sigma[i]] for i, v in enumerate(tn)}, order=[v for _, v in sorted(zip(sigma, tn))])
+    for v in rc2.nodes:
+        rc2.nodes[v]["atom_map"] = v
+    r2 = reactor(sub, rc2, "all", invert).its_list
+    check_sets_equal(E, pruned, r2, "renumbering-the-template-changes-the-set-of-reactions",
+                     dict(info, sigma=sigma, before=len(pruned), after=len(r2)))
+    E.note(nontrivial=len(unpruned) > len(pruned))
+    E.observe((len(pruned), len(unpruned)))
+
+
+HARNESSES = {"numbering": h_numbering, "history": h_history, "family": h_family}
 
 
 def shards(tier, seed):
@@ -149,6 +176,9 @@ def shards(tier, seed):
         if hn == 3:
             sh.append(dict(h="history", params=dict(k=3, hn=hn, hedges=he, invert=False)))
             sh.append(dict(h="history", params=dict(k=3, hn=hn, hedges=he, invert=True)))
+    for fam in ("2+2", "ene-shift") + (("DA",) if tier == "thorough" else ()):
+        for invert in (False, True):
+            sh.append(dict(h="family", params=dict(family=fam, invert=invert)))
     if tier == "thorough":
         for hn, he in hosts:
             if hn == 3:
